@@ -378,18 +378,23 @@ fn scenarios(thorough: bool) -> Vec<(Scenario, Vec<usize>, usize)> {
         (s("naive-enc||oneshot", &["naive-enc", "oneshot"]), vec![0, 1, 2], 400_000),
         // first use of the NoSimd table family racing with first use of the SIMD table family
         (s("nosimd-enc||avx2-enc", &["nosimd-enc", "avx2-enc"]), if thorough { vec![0, 1, 2, 3, all] } else { vec![0, 1, 2] }, 400_000),
+        // two threads whose first use reaches the *same* big table (publication of a table under construction)
+        (s("nosimd-enc||nosimd-enc", &["nosimd-enc", "nosimd-enc"]), if thorough { vec![0, 1, 2, 3] } else { vec![0, 1, 2] }, 400_000),
+        (s("avx2-enc||avx2-enc", &["avx2-enc", "avx2-enc"]), if thorough { vec![0, 1, 2, 3] } else { vec![0, 1, 2] }, 400_000),
         // three threads whose first use reaches three different tables (Skew/Exp-Log, Mul16, Mul128)
         (s("naive-enc||nosimd-enc||avx2-enc", &["naive-enc", "nosimd-enc", "avx2-enc"]), if thorough { vec![0, 1, 2] } else { vec![0, 1] }, 400_000),
         // bare first use of three / four different tables at once
         (s("skew||logwalsh||mul16", &["force-skew", "force-logwalsh", "force-mul16"]), if thorough { vec![0, 1, 2, 3] } else { vec![0, 1, 2] }, 400_000),
         (s("skew||mul16||mul128", &["force-skew", "force-mul16", "force-mul128"]), if thorough { vec![0, 1, 2, 3] } else { vec![0, 1] }, 400_000),
 
+        // multi-MiB working spaces (size-gated code paths; with the harness-decided available_parallelism
+        // of 2, budgets and pools derived from it are exhausted by two threads)
+        (s("bigdec||bigdec", &["bigdec", "bigdec"]), if thorough { vec![0, 1, 2] } else { vec![0, 1] }, 400_000),
         (s("handover", &["handover"]), if thorough { vec![0, 1, 2, 3, all] } else { vec![0, 1, 2, 3] }, 400_000),
     ];
     if thorough {
         v.extend(vec![
             (s("skew||mul16||mul128||logwalsh", &["force-skew", "force-mul16", "force-mul128", "force-logwalsh"]), vec![0, 1, 2], 400_000),
-            (s("bigdec||bigdec", &["bigdec", "bigdec"]), vec![0, 1], 400_000),
             (s("naive||nosimd", &["naive", "nosimd"]), vec![0, 1, 2, all], 400_000),
             (s("nosimd||avx2", &["nosimd", "avx2"]), vec![0, 1, 2, 3], 400_000),
             (s("ssse3||avx2", &["ssse3", "avx2"]), vec![0, 1, 2, 3], 400_000),
@@ -882,7 +887,7 @@ fn main() {
         samples.push("(no execution completed)".into());
     }
     let ev = format!(
-        "{{\n \"property_id\": \"C16\",\n \"tier\": {},\n \"seed\": {},\n \"level\": \"model_checking\",\n \"coverage\": {{\n  \"states\": {},\n  \"transitions\": {},\n  \"traces_validated_against_impl\": {},\n  \"evaluations\": {},\n  \"distinct_nontrivial\": {},\n  \"rule\": \"one evaluation = one complete schedule of the real code (repository source re-targeted onto shuttle primitives) executed under the bounded-preemption DFS scheduler and compared, thread by thread, with sequential use; states = scheduling points visited, transitions = scheduling decisions; distinct_nontrivial = number of distinct orders (table@thread) in which the racing threads initialised the shared tables, summed over scenarios - more than one per scenario shows that first-use really raced\",\n  \"exhaustive\": {},\n  \"caps_hit\": [{}],\n  \"completed\": [{}],\n  \"per_scenario\": [\n   {}\n  ],\n  \"samples\": [{}]\n }},\n \"assumptions\": [\"scheduling points are the operations of shuttle's sync/thread/lazy primitives onto which every std::sync / std::thread use of the source is re-targeted; unsynchronised accesses have no scheduling point\", \"sequentially consistent atomics (the crate has none of its own); std's LazyLock implementation itself is trusted and modelled by shuttle's blocking Once\", \"2-thread scenarios: all schedules (bound 'all'); 3-thread scenarios: all schedules with at most the stated number of preemptions\"],\n \"wall_s\": {:.1},\n \"violations\": {}\n}}\n",
+        "{{\n \"property_id\": \"C16\",\n \"tier\": {},\n \"seed\": {},\n \"level\": \"model_checking\",\n \"coverage\": {{\n  \"states\": {},\n  \"transitions\": {},\n  \"traces_validated_against_impl\": {},\n  \"evaluations\": {},\n  \"distinct_nontrivial\": {},\n  \"rule\": \"one evaluation = one complete schedule of the real code (repository source re-targeted onto shuttle primitives) executed under the bounded-preemption DFS scheduler and compared, thread by thread, with sequential use; states = scheduling points visited, transitions = scheduling decisions; distinct_nontrivial = number of distinct orders (table@thread) in which the racing threads initialised the shared tables, summed over scenarios - more than one per scenario shows that first-use really raced\",\n  \"exhaustive\": {},\n  \"caps_hit\": [{}],\n  \"completed\": [{}],\n  \"per_scenario\": [\n   {}\n  ],\n  \"samples\": [{}]\n }},\n \"assumptions\": [\"scheduling points are the operations of shuttle's sync/thread/lazy primitives onto which every std::sync / std::thread use of the source is re-targeted; unsynchronised accesses have no scheduling point; the port's Arc/Weak and atomic wrappers add one before every reference-count operation and after every atomic write (publication before the guarded data is written)\", \"std::thread::available_parallelism is answered by the harness: 2 (a two-CPU machine), so that budgets derived from it are exhausted by two threads\", \"sequentially consistent atomics (the crate has none of its own); std's LazyLock implementation itself is trusted and modelled by shuttle's blocking Once\", \"2-thread scenarios: all schedules (bound 'all'); 3-thread scenarios: all schedules with at most the stated number of preemptions\"],\n \"wall_s\": {:.1},\n \"violations\": {}\n}}\n",
         jstr(&tier),
         seed,
         total_points.max(1),
